@@ -15,17 +15,17 @@ Proof. reflexivity. Qed.
 Lemma blen_nonneg (a : bytes) : 0 <= blen a.
 Proof. unfold blen. lia. Qed.
 
-(** the code as it is = the generalised loop with the repair switched off *)
-Lemma strict_loop_gen_false q s : forall first in_run,
-  strict_ascii_loop q s first in_run = strict_ascii_loop_gen false q s first in_run.
+(** the code (with the repair applied) = the generalised loop with the repair switched on *)
+Lemma strict_loop_gen_true q s : forall first in_run,
+  strict_ascii_loop q s first in_run = strict_ascii_loop_gen true q s first in_run.
 Proof.
   induction s as [|c s IH]; intros first in_run; cbn [strict_ascii_loop strict_ascii_loop_gen].
   - reflexivity.
-  - cbn [andb]. rewrite orb_false_r. rewrite !IH. reflexivity.
+  - cbn [andb]. rewrite !IH. reflexivity.
 Qed.
 
-Lemma write_strict_gen_false q s : write_strict_ascii q s = write_strict_ascii_gen false q s.
-Proof. destruct s; [reflexivity|]. apply strict_loop_gen_false. Qed.
+Lemma write_strict_gen_true q s : write_strict_ascii q s = write_strict_ascii_gen true q s.
+Proof. destruct s; [reflexivity|]. apply strict_loop_gen_true. Qed.
 
 (** ---------- parser states that occur while reading encoder output ---------- *)
 Definition st_idle (acc : bytes) : astate :=
@@ -367,22 +367,12 @@ Theorem strict_ascii_roundtrip_fixed : forall (s : bytes) q rest,
   = AOk s (blen (write_strict_ascii_fixed q s) + 1) rest.
 Proof. intros s q rest Q FB. apply strict_ascii_roundtrip_gen; [exact Q|exact FB|discriminate]. Qed.
 
-(** the encoder AS IT IS: every byte string that does not contain the closing bracket *)
-Theorem strict_ascii_roundtrip_no_gt : forall (s : bytes) q rest,
-  is_q q -> Forall is_byte s -> ~ In c_gt s ->
+(** the encoder as it is (repair applied): every byte string *)
+Theorem strict_ascii_roundtrip : forall (s : bytes) q rest,
+  is_q q -> Forall is_byte s ->
   parse_ascii_strict (write_strict_ascii q s ++ c_gt :: rest)
   = AOk s (blen (write_strict_ascii q s) + 1) rest.
 Proof.
-  intros s q rest Q FB NG. rewrite write_strict_gen_false.
-  apply strict_ascii_roundtrip_gen; [exact Q|exact FB|intros _; exact NG].
-Qed.
-
-(** ... and the full statement is FALSE for the encoder as it is: witness the one-byte string
-    consisting of the closing bracket (finding C13-gt, DESIGN.md section 5 #3). *)
-Theorem strict_ascii_roundtrip_refuted :
-  exists (s : bytes) q, is_q q /\ Forall is_byte s /\
-    parse_ascii_strict (write_strict_ascii q s ++ [c_gt]) = AErr EUnclosedQuote.
-Proof.
-  exists [c_gt], c_dq. split; [left; reflexivity|]. split; [repeat constructor; cbv; congruence|].
-  vm_compute. reflexivity.
+  intros s q rest Q FB. rewrite write_strict_gen_true.
+  apply strict_ascii_roundtrip_gen; [exact Q|exact FB|discriminate].
 Qed.
